@@ -59,6 +59,17 @@ Section LoopMono.
     destruct (window_fill nx k it1 (c ++ [v])) as [[[[t2 e] c2] it2]|] eqn:E2; try discriminate.
     rewrite (IHk _ _ _ E2). auto.
   Qed.
+  Lemma discard_mono : forall b k it r, discard nx b k it = Some r -> discard nx' b k it = Some r.
+  Proof.
+    intro b. induction k; simpl; intros it r H; auto.
+    unfold bind in *.
+    destruct (nx it) as [[[t o] it1]|] eqn:E; try discriminate.
+    rewrite (Hnx _ _ E).
+    destruct o as [[v|x y|e]|]; auto;
+      try (destruct (discard nx b k it1) as [[[t2 rr] it2]|] eqn:E2; try discriminate; rewrite (IHk _ _ E2); auto).
+    destruct b; auto.
+    destruct (discard nx false k it1) as [[[t2 rr] it2]|] eqn:E2; try discriminate; rewrite (IHk _ _ E2); auto.
+  Qed.
 End LoopMono.
 
 Ltac mono_step IH Hle :=
@@ -78,6 +89,10 @@ Ltac mono_step IH Hle :=
     let E := fresh "E" in
     destruct (nth_ (step n d) k i) as [[[? ?] ?]|] eqn:E;
     [ rewrite (nth_mono (step n d) _ (fun it r H => IH d it r H _ Hle) _ _ _ E) | discriminate H ]
+  | H : match discard (step ?n ?d) ?b ?k ?i with _ => _ end = Some _ |- _ =>
+    let E := fresh "E" in
+    destruct (discard (step n d) b k i) as [[[? ?] ?]|] eqn:E;
+    [ rewrite (discard_mono (step n d) _ (fun it r H => IH d it r H _ Hle) _ _ _ _ E) | discriminate H ]
   | H : match pull_ignore (step ?n ?d) ?k ?i with _ => _ end = Some _ |- _ =>
     let E := fresh "E" in
     destruct (pull_ignore (step n d) k i) as [[? ?]|] eqn:E;
